@@ -54,7 +54,7 @@ func UpdateList[T any](remoteWrite bool, existingData []T, newData []T, filterPa
 			if !noErrors {
 				success = false
 			}
-			return newData, success
+			return SortData(newData), success
 		}
 	}
 
@@ -68,7 +68,7 @@ func UpdateList[T any](remoteWrite bool, existingData []T, newData []T, filterPa
 		if !noErrors {
 			success = false
 		}
-		return newData, success
+		return SortData(newData), success
 	}
 
 	result, noErrors := Merge(remoteWrite, existingData, newData)
